@@ -206,6 +206,60 @@ def copyString (cxx : Option Buf) (elemLen : Nat) (cvar : Buf) (cvarLen : Nat) :
     | some s => strncpy cvar s 0 n
   else .ok cvar
 
+/-! ### ShroudCopyStringAndFree as the sequence of its statements
+
+`copyString` above is the data part.  The helper also releases the C++ object the text lives in
+(`C_memory_dtor_function(&data->cxx)`); when the wrapper owns that object (`std::string` returned
+by value, `+owner(caller)`: non-zero destructor index) the storage read by `strncpy` is gone after
+the release.  The statements of the helper body are regenerated into `Gen.copyStringSteps`
+(tools/extract_strstmts.py) and executed in THAT order by `copyStringRun`; reading storage that
+was released is `Res.oob` (use after free). -/
+
+inductive CsStep where
+  | fetchPtr    -- const char *cxx_var = data->addr.ccharp;
+  | initN       -- size_t n = c_var_len;
+  | clampN      -- if (data->elem_len < n) n = data->elem_len;
+  | copy        -- if (n > 0) strncpy(c_var, cxx_var, n);
+  | release     -- C_memory_dtor_function(&data->cxx);
+  deriving DecidableEq, Repr
+
+structure CsState where
+  ptr : Option (Option Buf)   -- `cxx_var` once fetched (inner none = NULL)
+  n : Option Nat              -- `n` once declared
+  cvar : Buf
+  live : Bool                 -- the storage `addr.ccharp` points into is still allocated
+  releases : Nat              -- calls of the destructor
+  deriving Repr
+
+def csStep (cxx : Option Buf) (owned : Bool) (elemLen cvarLen : Nat) (st : CsStep) (s : CsState) :
+    Res CsState :=
+  match st with
+  | .fetchPtr => .ok { s with ptr := some cxx }
+  | .initN => .ok { s with n := some cvarLen }
+  | .clampN =>
+    match s.n with
+    | some n => .ok { s with n := some (if elemLen < n then elemLen else n) }
+    | none => .oob
+  | .copy =>
+    match s.ptr, s.n with
+    | some p, some n =>
+      if n > 0 then
+        match p with
+        | none => .oob
+        | some b => if s.live then (strncpy s.cvar b 0 n).map fun d => { s with cvar := d } else .oob
+      else .ok s
+    | _, _ => .oob
+  | .release => .ok { s with live := s.live && !owned, releases := s.releases + 1 }
+
+def csRun (cxx : Option Buf) (owned : Bool) (elemLen cvarLen : Nat) : List CsStep → CsState → Res CsState
+  | [], s => .ok s
+  | st :: rest, s => (csStep cxx owned elemLen cvarLen st s).bind (csRun cxx owned elemLen cvarLen rest)
+
+/-- run the helper body `steps`: the Fortran variable afterwards and the number of releases -/
+def copyStringRun (steps : List CsStep) (cxx : Option Buf) (owned : Bool) (elemLen : Nat) (cvar : Buf)
+    (cvarLen : Nat) : Res (Buf × Nat) :=
+  (csRun cxx owned elemLen cvarLen steps ⟨none, none, cvar, true, 0⟩).map fun s => (s.cvar, s.releases)
+
 /-- the two Fortran statements `allocate(character(len=elem_len) :: rv)` and
     `call copy_string(ctx, rv, elem_len)` -/
 def allocatableResult (ctx : Option Buf × Nat) : Res Buf :=
